@@ -16,15 +16,16 @@ pub struct Bounds {
     pub inline_items: usize,
     pub multi_pair_items: usize,
     pub multi_triple_items: usize,
+    pub multi_triple_total: usize,
     pub prog_n: usize,
     pub cap: u64,
 }
 
 pub fn bounds(thorough: bool) -> Bounds {
     if thorough {
-        Bounds { max_init: 4, max_init_wide: 3, rounds: 3, max_new: 1, inline_items: 4, multi_pair_items: 3, multi_triple_items: 2, prog_n: 4, cap: 400_000_000 }
+        Bounds { max_init: 4, max_init_wide: 3, rounds: 3, max_new: 2, inline_items: 4, multi_pair_items: 3, multi_triple_items: 3, multi_triple_total: 5, prog_n: 4, cap: 400_000_000 }
     } else {
-        Bounds { max_init: 3, max_init_wide: 2, rounds: 2, max_new: 1, inline_items: 3, multi_pair_items: 2, multi_triple_items: 1, prog_n: 3, cap: 50_000_000 }
+        Bounds { max_init: 3, max_init_wide: 2, rounds: 3, max_new: 1, inline_items: 3, multi_pair_items: 2, multi_triple_items: 2, multi_triple_total: 4, prog_n: 3, cap: 50_000_000 }
     }
 }
 
@@ -91,10 +92,9 @@ fn single_section(b: &Bounds) -> Stats {
         let mut st = Stats::new();
         let mut found: Option<(Problem, Vec<usize>)> = None;
         let es = explore(None, cap, |ch| {
-            if found.is_some() {
-                return;
-            }
-            if let Err(p) = run_single(*kind, init, rounds, max_new, ch, &mut st, false) {
+            if let Err(p) = run_single(*kind, init, rounds, max_new, ch, &mut st, false)
+                && found.is_none()
+            {
                 found = Some((p, ch.choices()));
             }
         });
@@ -186,25 +186,38 @@ fn run_multi(states: &[HookState], ch: &mut Chooser, st: &mut Stats, verbose: bo
     Ok(())
 }
 
-fn multi_section(b: &Bounds) -> Stats {
-    // vectors of 1..=2 hooks over the larger queue universe, triples over the smaller one
-    let big = hook_states(&ALL_KINDS, b.multi_pair_items);
-    let small = hook_states(&ALL_KINDS, b.multi_triple_items);
+fn multi_section(b: &Bounds, idle_only: bool) -> Stats {
+    // Single hooks: every kind. Vectors of 2-3 hooks: only tick-input hooks (top-level hooks are
+    // one observation each and never share a run_hooks call). A passthrough hook without a new
+    // value next to siblings is swept separately (section `passthrough_idle`).
+    let tick_kinds: Vec<Kind> = ALL_KINDS.iter().copied().filter(|k| !k.top_level()).collect();
+    let singles = hook_states(&ALL_KINDS, b.multi_pair_items + 1);
+    let big = hook_states(&tick_kinds, b.multi_pair_items);
+    let small = hook_states(&tick_kinds, b.multi_triple_items);
+    let idle_pt = |s: &HookState| s.kind == Kind::Passthrough && s.items.is_empty();
     let mut vectors: Vec<Vec<HookState>> = vec![];
-    for a in &big {
-        vectors.push(vec![a.clone()]);
+    if !idle_only {
+        for a in &singles {
+            vectors.push(vec![a.clone()]);
+        }
     }
     for a in &big {
         for c in &big {
-            if a.items.len() + c.items.len() <= b.multi_pair_items + 1 {
-                vectors.push(vec![a.clone(), c.clone()]);
+            let v = vec![a.clone(), c.clone()];
+            if v.iter().any(idle_pt) == idle_only {
+                vectors.push(v);
             }
         }
     }
     for a in &small {
         for c in &small {
             for d in &small {
-                vectors.push(vec![a.clone(), c.clone(), d.clone()]);
+                if a.items.len() + c.items.len() + d.items.len() <= b.multi_triple_total {
+                    let v = vec![a.clone(), c.clone(), d.clone()];
+                    if v.iter().any(idle_pt) == idle_only {
+                        vectors.push(v);
+                    }
+                }
             }
         }
     }
@@ -215,10 +228,9 @@ fn multi_section(b: &Bounds) -> Stats {
         for states in &vectors[ci * chunk..((ci + 1) * chunk).min(vectors.len())] {
             let mut found: Option<(Problem, Vec<usize>)> = None;
             let es = explore(None, 2_000_000, |ch| {
-                if found.is_some() {
-                    return;
-                }
-                if let Err(p) = run_multi(states, ch, &mut st, false) {
+                if let Err(p) = run_multi(states, ch, &mut st, false)
+                    && found.is_none()
+                {
                     found = Some((p, ch.choices()));
                 }
             });
@@ -233,8 +245,9 @@ fn multi_section(b: &Bounds) -> Stats {
                 }
                 // the culprit set: kinds of the hooks that had nothing to release
                 let idle: BTreeSet<&str> = states.iter().filter(|s| s.items.is_empty()).map(|s| s.kind.name()).collect();
-                let key = if p.class == "run_hooks-panic" {
-                    format!("C36/run_hooks/{}/idle={:?}", p.class, idle)
+                let _ = &idle;
+                let key = if idle_only {
+                    format!("C36/run_hooks/passthrough-idle/{}", p.class)
                 } else {
                     format!("C36/run_hooks/{}/{:?}", p.class, states.iter().map(|s| s.kind.name()).collect::<Vec<_>>())
                 };
@@ -360,43 +373,64 @@ fn judge_run(e: &Entry, run: &crate::simrun::Run) -> Result<(), Problem> {
     }
 }
 
+/// All decision vectors of one program (runs inside a child process, see jobs.rs).
+pub fn program_job(name: &str, n: usize) -> Stats {
+    let cap = 300_000u64;
+    let mut st = Stats::new();
+    let e = corpus::build(name, n);
+    let mut found: Option<(Problem, Vec<usize>)> = None;
+    let es = explore(None, cap, |ch| {
+        st.eval();
+        let run = e.sim.run_driver(ch, false, true);
+        st.nontrivial(&(name, &run.decisions));
+        st.outcome(&(name, &run.obs));
+        st.sample(|| json!({"program": name, "inputs": e.inputs, "decisions": run.decisions.len(), "tick_outputs": format!("{:?}", run.obs)}));
+        if let Err(p) = judge_run(&e, &run)
+            && found.is_none()
+        {
+            found = Some((p, ch.choices()));
+        }
+    });
+    if es.capped {
+        st.cap(format!("program {name}: stopped after {} executions", es.executions));
+    }
+    println!("  program {name}: {} executions, max {} decisions", es.executions, es.max_points);
+    if let Some((p, choices)) = found {
+        let again = e.run_prefix(choices.clone(), true);
+        match judge_run(&e, &again) {
+            Err(p2) if p2.class == p.class => st.violation(
+                format!("C36/prog/{name}/{}", p.class),
+                format!("program {name} ({}): {}", e.inputs, p.text),
+                json!({"section": "programs", "program": name, "n": n, "choices": choices}),
+            ),
+            _ => crate::driver::machinery(&format!("program-level failure did not reproduce: {name} {choices:?}: {}", p.text)),
+        }
+    }
+    st
+}
+
 fn program_section(b: &Bounds, names: &[&str]) -> Stats {
     let n = b.prog_n;
-    let cap = 300_000u64;
     par_map(names.len(), ncpu().min(6), |i| {
         let name = names[i];
-        let mut st = Stats::new();
-        let e = corpus::build(name, n);
-        let mut found: Option<(Problem, Vec<usize>)> = None;
-        let es = explore(None, cap, |ch| {
-            if found.is_some() {
-                return;
+        match crate::jobs::spawn_job(&json!({"job": "c36prog", "program": name, "n": n})) {
+            Ok(r) => {
+                for l in r.lines {
+                    println!("{l}");
+                }
+                r.stats
             }
-            st.eval();
-            let run = e.sim.run_driver(ch, false, true);
-            st.nontrivial(&(name, &run.decisions));
-            st.outcome(&(name, &run.obs));
-            st.sample(|| json!({"program": name, "inputs": e.inputs, "decisions": run.decisions.len(), "tick_outputs": format!("{:?}", run.obs)}));
-            if let Err(p) = judge_run(&e, &run) {
-                found = Some((p, ch.choices()));
-            }
-        });
-        if es.capped {
-            st.cap(format!("program {name}: stopped after {} executions", es.executions));
-        }
-        println!("  program {name}: {} executions, max {} decisions", es.executions, es.max_points);
-        if let Some((p, choices)) = found {
-            let again = e.run_prefix(choices.clone(), true);
-            match judge_run(&e, &again) {
-                Err(p2) if p2.class == p.class => st.violation(
-                    format!("C36/prog/{name}/{}", p.class),
-                    format!("program {name} ({}): {}", e.inputs, p.text),
-                    json!({"section": "programs", "program": name, "n": n, "choices": choices}),
-                ),
-                _ => crate::driver::machinery(&format!("program-level failure did not reproduce: {name} {choices:?}: {}", p.text)),
+            Err(crash) => {
+                let mut st = Stats::new();
+                st.eval();
+                st.violation(
+                    format!("C36/prog/{name}/simulator-crash"),
+                    format!("program {name}: the simulator process died while exploring the program's schedules: {crash}"),
+                    json!({"section": "crash", "program": name, "n": n}),
+                );
+                st
             }
         }
-        st
     })
 }
 
@@ -422,6 +456,7 @@ pub fn run(rep: &mut Report) {
     rep.bound("run_hooks_vector_len", 3);
     rep.bound("run_hooks_items_pairs", b.multi_pair_items);
     rep.bound("run_hooks_items_triples", b.multi_triple_items);
+    rep.bound("run_hooks_total_items_triples", b.multi_triple_total);
     rep.bound("program_input_items", b.prog_n);
     let t = std::time::Instant::now();
     let s = single_section(&b);
@@ -432,9 +467,12 @@ pub fn run(rep: &mut Report) {
     println!("  inline: {} observations judged, {:.1}s", s.evaluations, t.elapsed().as_secs_f64());
     rep.section("inline", s);
     let t = std::time::Instant::now();
-    let s = multi_section(&b);
+    let s = multi_section(&b, false);
     println!("  run_hooks: {} ticks judged over {} vectors, {:.1}s", s.evaluations, s.states, t.elapsed().as_secs_f64());
     rep.section("run_hooks", s);
+    let s = multi_section(&b, true);
+    println!("  run_hooks with an idle passthrough hook: {} ticks judged over {} vectors", s.evaluations, s.states);
+    rep.section("passthrough_idle", s);
     let t = std::time::Instant::now();
     let s = program_section(&b, &corpus::C36_PROGRAMS);
     println!("  programs: {} executions judged, {:.1}s", s.evaluations, t.elapsed().as_secs_f64());
@@ -483,6 +521,16 @@ pub fn replay(case: &Value) -> bool {
             let run = e.run_prefix(choices, true);
             println!("replay: program {name} ({}): verdict {:?}\n  decisions {:?}\n  tick outputs {:?}", e.inputs, run.verdict, run.decisions, run.obs);
             judge_run(&e, &run)
+        }
+        "crash" => {
+            let name = case["program"].as_str().unwrap();
+            match crate::jobs::spawn_job(&json!({"job": "c36prog", "program": name, "n": case["n"]})) {
+                Ok(r) => {
+                    println!("replay: the child process explored program {name} without dying ({} executions)", r.stats.evaluations);
+                    if r.stats.violations.is_empty() { Ok(()) } else { Err(Problem { class: "other", text: r.stats.violations[0].what.clone() }) }
+                }
+                Err(crash) => Err(Problem { class: "simulator-crash", text: crash }),
+            }
         }
         other => {
             println!("unknown replay section {other}");
